@@ -51,7 +51,24 @@ def gen_script(rnd, schema_ids, alphabet, length):
                     lines.append("%d key %d %d" % (lg, rnd.choice(XK), rnd.choice(MASKS[:12])))
                 else:
                     lines.append("%d key %d %d" % (lg, ord(rnd.choice("1234567890,.!/($`':;T-=[]<>?\\\"")), 0))
-        elif r < 0.55:
+        elif r < 0.50:
+            # boundary navigation: put the caret at an edge (or anywhere), then one navigation/editing key under every modifier mask
+            lines.append("%d %s" % (lg, rnd.choice(["key 65360 0", "key 65367 0", "set_caret 0", "set_caret 1", "set_caret 999", "key 97 4", "key 101 4",
+                                                    "set_caret %d" % rnd.randint(0, 9)])))
+            for _ in range(rnd.randint(1, 3)):
+                lines.append("%d key %d %d" % (lg, rnd.choice([0xff51, 0xff53, 0xff52, 0xff54, 0xff50, 0xff57, 0xff08, 0xffff, 0xff09, 0xfe20, 0xff55, 0xff56,
+                                                               0xff96, 0xff98, 0xff1b, 0xff0d, 0x20]),
+                                               rnd.choice([0, 1, 4, 5, 8, 9, 12])))
+        elif r < 0.53:
+            # raw input with arbitrary bytes (also >= 0x80) followed by spelling / delimiter / editing keys at some caret position
+            n = rnd.randint(1, 10)
+            bs = bytes(rnd.choice(list(alphabet.encode()) * 3 + [0x20, 0x27, 0xe4, 0xbd, 0xa0, 0xff, 0x80, 0x01, 0x7f, 0xc3]) for _ in range(n))
+            lines.append("%d set_input %s" % (lg, bs.hex()))
+            if rnd.random() < 0.5:
+                lines.append("%d set_caret %d" % (lg, rnd.randint(0, n + 1)))
+            for _ in range(rnd.randint(1, 4)):
+                lines.append("%d key %d 0" % (lg, rnd.choice([0x27, 0x20, 0x3b, 0xff08, 0xffff, 0xff51, 0xff53, ord(rnd.choice(alphabet)), 0x31, 0x2c])))
+        elif r < 0.58:
             code = rnd.choice(INT_EDGE + [rnd.randint(-2**31, 2**31 - 1), rnd.randint(0, 0x10ffff), rnd.randint(0xff00, 0xffff)])
             lines.append("%d key %d %d" % (lg, code, rnd.choice(MASKS + [rnd.randint(-2**31, 2**31 - 1)])))
         elif r < 0.72:
@@ -209,7 +226,7 @@ def run(ctx):
     jobs = []   # (name, shared, staging, lines, meta)
     # --- stock schemas
     tmpl = vlib.stock_workspace("asan")
-    for i in range(6 if quick else 40):
+    for i in range(32 if quick else 120):
         sid = rnd.choice(["luna_pinyin", "cangjie5"])
         jobs.append(("stock%d" % i, os.path.join(tmpl, "shared"), os.path.join(tmpl, "user", "build"),
                      gen_script(rnd, [sid, "luna_pinyin", "cangjie5"], "abcdefghijklmnopqrstuvwxyz", 120 if quick else 200), {"schema": sid}))
